@@ -508,9 +508,25 @@ def rule_refs(ctx):
                 var = arg["e"]["n"]
             else:
                 if arg.get("k") != "var":
+                    if a.node["fn"] in FALLIBLE_HOLD and not f.value_edges(a):
+                        # the view with temporaries propagated writes the object as the expression that produced it
+                        key = show(arg)
+                        rel_after = [c for c in f.calls(RELEASE[kind]) if (c.b, c.i) in f.reach((a.b, a.i + 1)) and any(
+                            z is not None and show(f.expand(z)) == key for z in c.node["args"])]
+                        if rel_after:
+                            ctx.fail(r, f, "%s result ignored, then %s" % (a.node["fn"], rel_after[0].node["fn"]), a.line,
+                                     "%s at line %s can be refused but its result is ignored; %s at line %s then releases a "
+                                     "reference this function may not hold" % (a.node["fn"], a.line, rel_after[0].node["fn"], rel_after[0].line))
                     continue
                 var = arg["n"]
             ve = f.value_edges(a)
+            if a.node["fn"] in FALLIBLE_HOLD and not byaddr:
+                # a hold whose answer is thrown away: the call is a statement of its own (in the view with helpers
+                # inlined the tests inside the hold function must not be mistaken for tests of its result)
+                used = any(m.get("k") == "ref" and (m.get("b"), m.get("i")) == (a.b, a.i) for b_ in f.blocks.values() for e_ in b_.elems
+                           if e_ is not None for m in walk(e_))
+                if a.node.get("_inlined") and not used:
+                    ve = {}
             if not ve:
                 if not byaddr and a.node["fn"] in FALLIBLE_HOLD:
                     # the hold can be refused (object already closing); with the answer thrown away, what follows gives
@@ -1139,6 +1155,7 @@ def rule_admitted_then_closing(ctx):
                     n += 1
                     region = f.reach((tgt, 0))
                     ok = None
+                    sites = {}
                     for c2 in f.calls():
                         if (c2.b, c2.i) not in region:
                             continue
@@ -1146,10 +1163,13 @@ def rule_admitted_then_closing(ctx):
                             continue
                         fnm = c2.node.get("fn")
                         if fnm in LIST_REMOVE and last_field(f.expand(c2.node["args"][0])) == lf:
-                            ok = fnm
+                            sites[(c2.b, c2.i)] = fnm
                         g = prog.resolve(f, fnm) if fnm else None
-                        if g is not None and _retires(prog, g, {lf}):
-                            ok = fnm
+                        if g is not None and not c2.node.get("_inlined") and _retires(prog, g, {lf}):
+                            sites[(c2.b, c2.i)] = fnm
+                    # ... on every path from the edge to the function's exit (a removal under a condition is not enough)
+                    if sites and (f.exit, 0) not in f.reach((tgt, 0), blocked=lambda b, i, e: (b, i) in sites):
+                        ok = "/".join(sorted(set(sites.values())))
                     if ok:
                         r.ob(f, "%s admitted to %s, %s found set: retired by %s" % (obj["n"], lf, alf, ok))
                     else:
